@@ -19,6 +19,7 @@ import (
 	"runtime"
 	"strconv"
 	"sync"
+	"sync/atomic"
 	"time"
 
 	"github.com/ohler55/ojg/gen"
@@ -140,6 +141,7 @@ type follower struct {
 func matrix(args []string) {
 	fs := flag.NewFlagSet("matrix", flag.ExitOnError)
 	full := fs.Bool("full", false, "thorough parameter sets")
+	lite := fs.Bool("lite", false, "smallest parameter sets (quick tier of the checks that evaluate many things per case)")
 	fs.Parse(args)
 	out := bufio.NewWriterSize(os.Stdout, 1<<20)
 	defer out.Flush()
@@ -160,6 +162,11 @@ func matrix(args []string) {
 		bounds = []int{-7, -4, -2, -1, 0, 1, 2, 4, 7, A}
 		steps = []int{-2, -1, 0, 1, 2, 3, A}
 		lens = []int{0, 1, 3, 4}
+	}
+	if *lite {
+		bounds = []int{-7, -2, -1, 0, 1, 2, 7, A}
+		steps = []int{-2, -1, 0, 1, 2, A}
+		lens = []int{0, 1, 3}
 	}
 	followers := []follower{{jl.FChild("a"), "obj"}, {jl.FNth(0), "arr"}, {jl.FNth(-1), "arr"}, {jl.FWild(), "mixed"}}
 	if !*full {
@@ -256,6 +263,27 @@ func matrix(args []string) {
 		for _, ct := range all {
 			v++
 			place(f, ct, []string{"mixed", "obj", "scalar"}, v)
+		}
+	}
+	// a fragment behind one that selects several nodes (siblings in flight on the evaluation stack)
+	multis := []jl.Frag{jl.FWild(), jl.FUnion(0, 1), jl.FUnion("a", "b"), jl.FSlice(0, 2, A), jl.FSlice(-1, A, -1), jl.FFilter("exk", "a", jl.Null())}
+	seconds := []jl.Frag{jl.FDesc(), jl.FWild(), jl.FSlice(0, 2, A), jl.FSlice(1, A, 2), jl.FUnion(1, 0), jl.FNth(-1), jl.FChild("a"), jl.FFilter("gts", "", jl.Int(0))}
+	for _, m := range multis {
+		for _, s2 := range seconds {
+			for _, outer := range []cont{{"arr", 3}, {"obj", 2}} {
+				for _, sh := range []string{"arr", "obj", "mixed"} {
+					c := &ctr{n: 100}
+					var d jl.Node
+					if outer.kind == "arr" {
+						d = jl.Arr(mkCont(cont{"arr", 3}, sh, c), mkCont(cont{"obj", 2}, sh, c), mkCont(cont{"arr", 2}, sh, c))
+					} else {
+						d = jl.Obj("a", mkCont(cont{"arr", 3}, sh, c), "b", mkCont(cont{"obj", 2}, sh, c))
+					}
+					emit(3, []jl.Frag{jl.FRoot(), m, s2}, d)
+					emit(3, []jl.Frag{jl.FRoot(), m, s2, jl.FWild()}, d)
+					emit(3, []jl.Frag{jl.FRoot(), m, s2, jl.FNth(0)}, d)
+				}
+			}
 		}
 	}
 	// paths that do not start at the root, bracket form, two focus fragments in a row
@@ -520,7 +548,13 @@ type obs struct {
 	FirstN *valRes `json:"firstn,omitempty"`
 }
 
+// current evaluator / representation, for the watchdog of the isolated (-one) mode
+var curEval, curRep atomic.Value
+
 func guard(fn func()) (msg string, panicked bool) {
+	if notRun.Load() {
+		return "not-run", true
+	}
 	defer func() {
 		if r := recover(); r != nil {
 			msg = fmt.Sprintf("%T: %v", r, r)
@@ -562,20 +596,30 @@ func doLocate(x jp.Expr, data any, max int) *locRes {
 	return res
 }
 
+var notRun atomic.Bool
+
 func observe(x jp.Expr, data any, set string) *obs {
+	curEval.Store("Get")
 	o := &obs{Get: doGet(x, data)}
 	if set == "c05" {
 		return o
 	}
+	curEval.Store("First")
 	o.First = &valRes{R: jl.Null()}
 	o.First.M, o.First.P = guard(func() { v := x.First(data); o.First.R = jl.Project(v); o.First.H = v != nil })
+	curEval.Store("FirstFound")
 	o.FF = &valRes{R: jl.Null()}
 	o.FF.M, o.FF.P = guard(func() { v, h := x.FirstFound(data); o.FF.R = jl.Project(v); o.FF.H = h })
+	curEval.Store("Has")
 	o.Has = &valRes{R: jl.Null()}
 	o.Has.M, o.Has.P = guard(func() { o.Has.H = x.Has(data) })
+	curEval.Store("Locate0")
 	o.Loc0 = doLocate(x, data, 0)
+	curEval.Store("Locate1")
 	o.Loc1 = doLocate(x, data, 1)
+	curEval.Store("Locate2")
 	o.Loc2 = doLocate(x, data, 2)
+	curEval.Store("Walk")
 	o.Walk = &walkRes{R: []walkCb{}, N: true}
 	o.Walk.M, o.Walk.P = guard(func() {
 		x.Walk(data, func(path jp.Expr, nodes []any) {
@@ -588,19 +632,32 @@ func observe(x jp.Expr, data any, set string) *obs {
 	})
 	if n, ok := data.(gen.Node); ok || data == nil {
 		o.G = true
+	curEval.Store("GetNodes")
 		o.GetN = &listRes{R: []jl.Node{}}
 		o.GetN.M, o.GetN.P = guard(func() {
 			for _, v := range x.GetNodes(n) {
 				o.GetN.R = append(o.GetN.R, jl.Project(v))
 			}
 		})
+	curEval.Store("FirstNode")
 		o.FirstN = &valRes{R: jl.Null()}
 		o.FirstN.M, o.FirstN.P = guard(func() { v := x.FirstNode(n); o.FirstN.R = jl.Project(v); o.FirstN.H = v != nil })
 	}
 	return o
 }
 
-func runCase(c *Case, set string) {
+// stepZero: the path has a slice with an explicit step 0. Locate on a reflect slice/array then never returns
+// (finding C11-1), so those representations are only exercised in the isolated -one mode.
+func stepZero(c *Case) bool {
+	for _, f := range c.Path {
+		if f["f"] == "slice" && f["sta"] == false && jl.ToInt(f["st"]) == 0 {
+			return true
+		}
+	}
+	return false
+}
+
+func runCase(c *Case, set string, only string) {
 	maxLen := jl.MaxArrLen(c.Data)
 	for _, f := range c.Path {
 		if f["f"] == "slice" {
@@ -624,6 +681,12 @@ func runCase(c *Case, set string) {
 	reps := []string{"simple", "gen"}
 	if set == "c11" {
 		reps = jl.Reps
+		if stepZero(c) {
+			reps = []string{"simple", "gen", "struct", "pstruct", "keyed"}
+		}
+	}
+	if only != "" {
+		reps = []string{only}
 	}
 	groups := map[string]*obs{}
 	order := []string{}
@@ -636,6 +699,7 @@ func runCase(c *Case, set string) {
 			if !used {
 				continue
 			}
+			curRep.Store(rep)
 			o := observe(rt.x, data, set)
 			if set == "c11" && o.G && rep != "gen" {
 				// a nil root is both "simple" and "gen": keep the gen-only evaluators with the gen representation
@@ -661,20 +725,179 @@ func runCase(c *Case, set string) {
 func execCases(args []string) {
 	fs := flag.NewFlagSet("exec", flag.ExitOnError)
 	set := fs.String("set", "c05", "c05 | c11")
+	one := fs.String("one", "", "isolated mode: run the single case on stdin on this representation only, with a 2 s / 400 MB watchdog")
 	fs.Parse(args)
+	if *one != "" {
+		execOne(*set, *one)
+		return
+	}
 	parallel(os.Stdin, os.Stdout, func(line []byte) []byte {
 		var c Case
 		if err := json.Unmarshal(line, &c); err != nil {
 			panic(err)
 		}
 		c.Data = jl.Norm(c.Data)
-		runCase(&c, *set)
+		runCase(&c, *set, "")
 		b, err := json.Marshal(c)
 		if err != nil {
 			panic(err)
 		}
 		return b
 	})
+}
+
+// execOne runs one case on one representation. An evaluator that does not return within 2 s (or allocates more
+// than 400 MB) is recorded as {p: true, m: "hang"}; the evaluators after it are marked "not-run" (no verdict).
+func execOne(set, rep string) {
+	sc := bufio.NewScanner(os.Stdin)
+	sc.Buffer(make([]byte, 1<<20), 1<<28)
+	if !sc.Scan() {
+		return
+	}
+	var c Case
+	if err := json.Unmarshal(sc.Bytes(), &c); err != nil {
+		panic(err)
+	}
+	c.Data = jl.Norm(c.Data)
+	for _, f := range c.Path {
+		if f["f"] == "slice" {
+			f["pr"] = jl.Probe(f, jl.MaxArrLen(c.Data))
+		}
+	}
+	x := jl.Expr(c.Path)
+	c.PS = x.String()
+	data, _ := jl.Build(rep, c.Data)
+	// run the evaluators one at a time, each in its own goroutine; the first that hangs ends the sequence
+	evals := []string{"Get", "First", "FirstFound", "Has", "Locate0", "Locate1", "Locate2", "Walk"}
+	o := &obs{As: []string{rep + "/built"}}
+	hung := ""
+	for _, ev := range evals {
+		if hung != "" {
+			break
+		}
+		done := make(chan struct{})
+		go func() {
+			defer close(done)
+			switch ev {
+			case "Get":
+				o.Get = doGet(x, data)
+			case "First":
+				o.First = &valRes{R: jl.Null()}
+				o.First.M, o.First.P = guard(func() { v := x.First(data); o.First.R = jl.Project(v); o.First.H = v != nil })
+			case "FirstFound":
+				o.FF = &valRes{R: jl.Null()}
+				o.FF.M, o.FF.P = guard(func() { v, h := x.FirstFound(data); o.FF.R = jl.Project(v); o.FF.H = h })
+			case "Has":
+				o.Has = &valRes{R: jl.Null()}
+				o.Has.M, o.Has.P = guard(func() { o.Has.H = x.Has(data) })
+			case "Locate0":
+				o.Loc0 = doLocate(x, data, 0)
+			case "Locate1":
+				o.Loc1 = doLocate(x, data, 1)
+			case "Locate2":
+				o.Loc2 = doLocate(x, data, 2)
+			case "Walk":
+				w := &walkRes{R: []walkCb{}, N: true}
+				w.M, w.P = guard(func() {
+					x.Walk(data, func(path jp.Expr, nodes []any) {
+						st, normal := jl.Steps(path)
+						if !normal {
+							w.N = false
+						}
+						w.R = append(w.R, walkCb{Path: st, Nodes: projAll(nodes)})
+					})
+				})
+				o.Walk = w
+			}
+		}()
+		deadline := time.After(2 * time.Second)
+		tick := time.NewTicker(20 * time.Millisecond)
+	wait:
+		for {
+			select {
+			case <-done:
+				break wait
+			case <-deadline:
+				hung = ev
+				break wait
+			case <-tick.C:
+				var ms runtime.MemStats
+				runtime.ReadMemStats(&ms)
+				if ms.HeapAlloc > 400<<20 {
+					hung = ev
+					break wait
+				}
+			}
+		}
+		tick.Stop()
+	}
+	fill := func(ev string) string {
+		if ev == hung {
+			return "hang"
+		}
+		return "not-run"
+	}
+	if hung != "" {
+		// the goroutine of the hung evaluator may still write its field: replace the whole observation
+		o2 := &obs{As: o.As}
+		seen := false
+		for _, ev := range evals {
+			if ev == hung {
+				seen = true
+			}
+			m := ""
+			if seen {
+				m = fill(ev)
+			}
+			switch ev {
+			case "Get":
+				o2.Get = o.Get
+				if seen {
+					o2.Get = &listRes{P: true, M: m, R: []jl.Node{}}
+				}
+			case "First":
+				o2.First = o.First
+				if seen {
+					o2.First = &valRes{P: true, M: m, R: jl.Null()}
+				}
+			case "FirstFound":
+				o2.FF = o.FF
+				if seen {
+					o2.FF = &valRes{P: true, M: m, R: jl.Null()}
+				}
+			case "Has":
+				o2.Has = o.Has
+				if seen {
+					o2.Has = &valRes{P: true, M: m, R: jl.Null()}
+				}
+			case "Locate0":
+				o2.Loc0 = o.Loc0
+				if seen {
+					o2.Loc0 = &locRes{P: true, M: m, R: [][]any{}}
+				}
+			case "Locate1":
+				o2.Loc1 = o.Loc1
+				if seen {
+					o2.Loc1 = &locRes{P: true, M: m, R: [][]any{}}
+				}
+			case "Locate2":
+				o2.Loc2 = o.Loc2
+				if seen {
+					o2.Loc2 = &locRes{P: true, M: m, R: [][]any{}}
+				}
+			case "Walk":
+				o2.Walk = o.Walk
+				if seen {
+					o2.Walk = &walkRes{P: true, M: m, R: []walkCb{}}
+				}
+			}
+		}
+		o = o2
+	}
+	c.O = []any{o}
+	b, _ := json.Marshal(c)
+	os.Stdout.Write(append(b, '\n'))
+	os.Exit(0)
 }
 
 // shrinkCands proposes smaller variants of each case read from stdin (field "parent" = id of the original):
